@@ -712,6 +712,7 @@ def c03(ctx):
                      "'all byte strings' is sampled, not enumerated (DESIGN section 6)")
 
 
+EXTRA["C01"] = ["C06_Intact", "C06_Genuine", "C06_AtMostOnce", "C12_Ppi"]   # "payload bytes and payload protocol identifier ... nothing lost, duplicated, altered"
 EXTRA["C08"] = ["C09_NoLeak"]   # a shutdown that leaves goroutines blocked for good
 EXTRA["C14"] = ["C02_Delivered", "C01_ReadNext", "C06_Genuine", "C06_AtMostOnce", "C06_OrderedSubseq"]   # "normal delivery" of a re-opened identifier
 EXTRA["C03"] = ["C01_", "C02_Delivered", "C06_Genuine", "C06_AtMostOnce", "C17_WrongKindAbort"]
